@@ -159,7 +159,7 @@ func runIngest(a *Analyzer, r *Results) {
 				continue
 			}
 			e := vc7[id+"|"+c.name]
-			o := &Obl{Rule: "VC7", Key: "VC7|" + short + "|interfaces.StoreViewChange|net", Props: props("C09", "C11", "C05", "C07", "C04"), Engine: "A",
+			o := &Obl{Rule: "VC7", Key: "VC7|" + short + "|interfaces.StoreViewChange|net", Props: props("C09", "C11", "C05", "C07", "C04", "C03"), Engine: "A",
 				Text: "a vote is stored only if it carries a block exactly when it carries a non-empty prepared proof (case split " + c.name + ": the store must be unreachable)", Entry: id}
 			if e == nil {
 				o.Status = "discharged"
@@ -280,6 +280,52 @@ func (ig *ingest) deliver(e *Effect) {
 		ev.Require("F1.instance", props("C08", "C17", "C03", "C07", "C01", "C11", "C04"), "a delivered message belongs to this instance", "net", Eq(inst(H), Field(rmf, "instanceId")))
 		ev.Require("F1.handler", props("C17"), "delivery only to a non-nil handler", "net", Ne(This("rawmessagesfilter.ConsensusMessagesHandler"), tNil))
 		ig.exactHeightFilter(ev, "F1.exact", H)
+		// F1.only: whether a message of the current height is delivered depends on the message and on the node's own
+		// identity / instance / height only - not on a memory of earlier messages (a "seen before" table keyed by
+		// unauthenticated fields lets anybody suppress a genuine message)
+		{
+			var extra []string
+			for _, ct := range e.PathConds() {
+				u := unsnap(ct)
+				u.Walk(func(x *Term) {
+					switch x.Op {
+					case "lookup", "haskey":
+						extra = append(extra, "a table lookup: "+PP(x))
+					case "call":
+						// a helper of the filter deciding on the filter's own memory
+						if g := ig.a.calleeOf(x); g != nil && strings.HasSuffix(funcPkgPath(g), "services/rawmessagesfilter") {
+							locs := map[string]bool{}
+							for l := range ig.a.readsOf(g) {
+								locs[l] = true
+							}
+							for l := range ig.a.writes[g] {
+								locs[l] = true
+							}
+							for l := range locs {
+								const pfx = "rawmessagesfilter.RawMessageFilter."
+								if strings.HasPrefix(l, pfx) {
+									switch strings.TrimPrefix(l, pfx) {
+									case "myMemberId", "instanceId", "consensusMessagesHandler", "state", "logger":
+									default:
+										extra = append(extra, shortName(g)+" uses the filter's field "+strings.TrimPrefix(l, pfx))
+									}
+								}
+							}
+						}
+					case "field":
+						if len(x.Args) == 1 && x.Args[0].Key() == rmf.Key() {
+							switch x.Name {
+							case "myMemberId", "instanceId", "consensusMessagesHandler", "state", "logger":
+							default:
+								extra = append(extra, "the filter's field "+x.Name)
+							}
+						}
+					}
+				})
+			}
+			extra = dedupSorted(extra)
+			ev.Verdict("F1.only", props("C05", "C17", "C08", "C12"), "the delivery of a current-height message depends only on the message itself and on the node's identity, instance and height: the filter keeps no memory of earlier messages that could suppress it", "net", len(extra) == 0, "delivery also depends on "+strings.Join(extra, "; "))
+		}
 	} else {
 		// drained messages: read at the key Read(State.height)
 		ok := false
@@ -330,7 +376,7 @@ func (ig *ingest) cacheInsert(e *Effect) {
 	}
 	ev.Verdict("F2.same", props("C17", "C20", "C08"), "the message parked in the future cache is the received message as converted from its raw form (block included), the same value the direct path would have delivered", "net", same, "cached value is "+PP(m))
 	ev.Require("F2.own", props("C08", "C17"), "a cached message is not the node's own", "net", Ne(mid(snd(m)), Field(rmf, "myMemberId")))
-	ev.Require("F2.instance", props("C08", "C17", "C03", "C07", "C01", "C11", "C04"), "a cached message belongs to this instance", "net", Eq(inst(H), Field(rmf, "instanceId")))
+	ev.Require("F2.instance", props("C08", "C17", "C03", "C07", "C01", "C11", "C04", "C09", "C10"), "a cached message belongs to this instance", "net", Eq(inst(H), Field(rmf, "instanceId")))
 	ev.Require("F2.future", props("C08", "C17"), "a cached message is for a future height", "net", Lt(k.SHeight, ht(H)))
 	ev.Verdict("F2.key", props("C08", "C17"), "the cache key is the message's own height", "net", ev.Same(key, ht(H)), "key "+key.Key())
 	ev.Require("F5.newest", props("C17"), "only the newest future height is cached", "net", Le(Field(rmf, "latestFutureBlockHeight"), key))
